@@ -138,6 +138,27 @@ CLAIMED = {
        "oracle: clauses (a)(b)(c) by executing the real patch on the device specification.",
   note=COMMON_NOTE + "device specification as in C01; ACL/pattern models tied by C06/C07; no filter-ACL; common logics.",
   design="§5 C02", technique="Lean 4 proof (mutual induction over diff trees; device-level frame lemma) + differential correspondence + simulator oracle"),
+ "C11": dict(
+  text="Lean theorems over the model of lib expand/collapse, huawei.vlandb single/multi/multi_all/_process_vlandb/vlan_diff and cisco.vlandb "
+       "simple/swtrunk (after repairs 679839a, 7d0d905, 7afbb71): expand(collapse(S))=S for every set, chunk length and tiny_ranges; "
+       "written lines parse back; changed lines suffice under partition; for all modes, any number of lines and every permutation of the "
+       "emitted commands, executing them from S_old ends in exactly S_new and every intermediate set contains S_old&S_new (single refuses "
+       ">1 changed line per side with an assertion, characterised); pool lines as one key are exact; vlan_diff never removes a batched vlan. "
+       "Kernel-checked witnesses that the OLD shortcut rules lost VLANs. Tie: real functions and the shipped huawei/cisco/nexus rulebooks "
+       "vs the model on 88k (quick) cases incl. all subset pairs of a 6-element universe; oracle: device simulation of the emitted rows.",
+  note=COMMON_NOTE + "Spec/VlanDev.lean is the device semantics of add/remove/clear commands; ids not range-checked; Cisco VLAN blocks "
+       "are tied but the theorems cover leaf rows.",
+  design="§5 C11", technique="Lean 4 proof (set algebra over range lists, permutation invariance) + differential correspondence, exhaustive small universes"),
+ "C12": dict(
+  text="Lean theorems over an explicit transition system of Parallel.irun (parent loop sub-steps, workers, task queue, per-worker feeder "
+       "buffers, pipe; every schedule, any number of ids/workers/quota): conservation (submitted = delivered + in flight + dropped), payloads, "
+       "STOP only after ids, no deadlock, termination under weak fairness, single-process path exact, run() partitions ids; exactly-once for "
+       "EVERY schedule under the exit rule now in the code (2315307), partial for the previous rule, kernel-checked loss witnesses for the two "
+       "earlier rules, the by-design abort and unpicklable outcomes. Tie: ~4k (quick) real pool runs traced through a shim and replayed "
+       "event by event in the model + exhaustive state exploration of small configurations in the compiled model.",
+  note=COMMON_NOTE + "multiprocessing semantics (FIFO queue, feeder flush before exit code, get timeout only on empty pipe) are assumptions "
+       "validated on every logged trace; task_timeout, outside kills, KeyboardInterrupt not modelled.",
+  design="§5 C12", technique="Lean 4 proof (inductive invariant over all schedules, liveness under weak fairness) + trace validation against real runs"),
 }
 REASONS = {}
 def main():
